@@ -24,8 +24,13 @@ Definition cls_of_k (k : pyk) : pycls :=
   | KFrozenset => ClsSeq CfFrozen | KDict => ClsDict DkD
   end.
 
-Definition obind {A B : Type} (c : option A) (k : A -> option B) : option B :=
-  match c with Some x => k x | None => None end.
+Definition obind {A B : Type} (c : res A) (k : A -> res B) : res B := bind c k.
+
+(** An iterable handed to a callee: a list, or a generator (its elements are
+    computed when it is consumed; once consumed it is empty). *)
+Inductive iter := IList (l : list val) | IGen (g : res (list val)).
+Definition iter_consume (i : iter) : res (list val) := match i with IList l => Ok l | IGen g => g end.
+Definition iter_after (i : iter) : iter := match i with IList l => IList l | IGen _ => IList [] end.
 
 Definition is_some {A : Type} (o : option A) : bool := match o with Some _ => true | None => false end.
 
@@ -57,14 +62,14 @@ Definition tv_class (t : tv) : pycls :=
   | _ => ClsOther
   end.
 
-(** [for i in x] / [x.items()]; [None] = not iterable that way *)
-Definition tv_members (t : tv) : option (list val) :=
+(** [for i in x] / [x.items()]; an error = not iterable that way *)
+Definition tv_members (t : tv) : res (list val) :=
   match t with
-  | TSame (VL xs) | TSame (VT _ xs) | TSame (VS xs) | TSame (VF xs) => Some xs
-  | _ => None
+  | TSame (VL xs) | TSame (VT _ xs) | TSame (VS xs) | TSame (VF xs) => Ok xs
+  | _ => Err ETypeError
   end.
-Definition tv_items (t : tv) : option (list (val * val)) :=
-  match t with TSame (VD _ kvs) => Some kvs | _ => None end.
+Definition tv_items (t : tv) : res (list (val * val)) :=
+  match t with TSame (VD _ kvs) => Ok kvs | _ => Err ETypeError end.
 
 Definition ctor_eqb (a b : ctor) : bool :=
   match a, b with
@@ -91,76 +96,77 @@ Definition cls_has_fields (c : pycls) : bool :=
   match c with ClsSeq (CfTuple (TkN _)) => true | _ => false end.
 
 (** [c()], [c(items)], [c( *items )], [c(pairs)] *)
-Definition cls_call0 (c : pycls) : option val :=
+Definition cls_call0 (c : pycls) : res val :=
   match c with
-  | ClsDict k => Some (VD k [])
-  | ClsSeq CfList => Some (VL [])
-  | ClsSeq (CfTuple TkT) => Some (VT TkT [])
-  | ClsSeq (CfTuple TkS) => Some (VT TkS [])
-  | _ => None
+  | ClsDict k => Ok (VD k [])
+  | ClsSeq CfList => Ok (VL [])
+  | ClsSeq (CfTuple TkT) => Ok (VT TkT [])
+  | ClsSeq (CfTuple TkS) => Ok (VT TkS [])
+  | _ => Err ETypeError
   end.
-Definition cls_call1 (E : env) (c : pycls) (items : list val) : option val :=
-  match c with ClsSeq cf => call1 E cf items | _ => None end.
-Definition cls_call_star (E : env) (c : pycls) (items : list val) : option val :=
-  match c with ClsSeq cf => call_star E cf items | _ => None end.
-Definition cls_call_pairs (E : env) (c : pycls) (ps : list (val * val)) : option val :=
-  match c with ClsDict k => mk_dict E k ps | _ => None end.
+(** the argument is consumed (a generator runs now), then the class is called *)
+Definition cls_call1 (E : env) (c : pycls) (items : iter) : res val :=
+  obind (iter_consume items) (fun l => match c with ClsSeq cf => call1 E cf l | _ => Err ETypeError end).
+Definition cls_call_star (E : env) (c : pycls) (items : iter) : res val :=
+  obind (iter_consume items) (fun l => match c with ClsSeq cf => call_star E cf l | _ => Err ETypeError end).
+
+(** [((ek, ev) for kk, vv in pairs)] consumed by a dict class: pair by pair, the
+    key is hashed when the pair is inserted *)
+Definition pairs_conv2 (E : env) (f : val -> val -> res (val * val)) :=
+  fix go (kvs : list (val * val)) : res (list (val * val)) :=
+    match kvs with
+    | [] => Ok []
+    | (k, v) :: r =>
+        obind (f k v) (fun p =>
+        if hashable E (fst p) then obind (go r) (fun r' => Ok (p :: r')) else Err ETypeError)
+    end.
+Definition cls_call_pairs (E : env) (c : pycls) (src : res (list (val * val)))
+    (f : val -> val -> res (val * val)) : res val :=
+  match c with
+  | ClsDict k => obind src (fun kvs => obind (pairs_conv2 E f kvs) (fun ps => Ok (mk_dict k ps)))
+  | _ => Err ETypeError
+  end.
 
 (** [d[key] = x] *)
-Definition tv_setitem (t : tv) (key x : val) : option tv :=
+Definition tv_setitem (t : tv) (key x : val) : res tv :=
   match t with
-  | TSame (VD k d) => Some (TSame (VD k (dict_set d key x)))
-  | _ => None
+  | TSame (VD k d) => Ok (TSame (VD k (dict_set d key x)))
+  | _ => Err ETypeError
   end.
 
 (** [value_serializer(inst, a, v)] / [value_serializer(None, None, v)]; calling [None] raises *)
 Definition who_of (inst : tv) (a : field) : who :=
   match inst with TSame (VI c _) => Some (c, fst a) | _ => None end.
-Definition ser_call (ser : option ser_fn) (w : who) (t : tv) : option tv :=
+Definition ser_call (ser : option ser_fn) (w : who) (t : tv) : res tv :=
   match ser with
-  | None => None
+  | None => Err ETypeError
   | Some s =>
-      Some (match s w (tv_out t) with
-            | Some r => TOpaque r
-            | None => t
-            end)
+      match s w (tv_out t) with
+      | Err e => Err e
+      | Ok (Some r) => Ok (TOpaque r)
+      | Ok None => Ok t
+      end
   end.
 (** [filter(a, v)] *)
-Definition flt_call (flt : option filter_fn) (a : field) (t : tv) : option bool :=
-  match flt with Some p => Some (p a (tv_out t)) | None => None end.
+Definition flt_call (flt : option filter_fn) (a : field) (t : tv) : res bool :=
+  match flt with Some p => p a (tv_out t) | None => Err ETypeError end.
 
 (** [fields(inst.__class__)] and the values [getattr(inst, a.name)] *)
-Definition tv_fields (E : env) (inst : tv) : option (list field) :=
-  match inst with TSame (VI c _) => Some (fields_of E c) | _ => None end.
+Definition tv_fields (E : env) (inst : tv) : res (list field) :=
+  match inst with TSame (VI c _) => Ok (fields_of E c) | _ => Err ETypeError end.
 Definition tv_field_values (inst : tv) : list val :=
   match inst with TSame (VI _ vs) => vs | _ => [] end.
 
 (** [for a in attrs: v = getattr(inst, a.name); body] threading one loop-carried variable *)
-Definition loop_fields {S : Type} (body : S -> field -> val -> option S) :=
-  fix go (fs : list field) (vs : list val) (s : S) {struct vs} : option S :=
+Definition loop_fields {S : Type} (body : S -> field -> val -> res S) :=
+  fix go (fs : list field) (vs : list val) (s : S) {struct vs} : res S :=
     match vs, fs with
-    | v :: vs', f :: fs' =>
-        match body s f v with
-        | Some s' => go fs' vs' s'
-        | None => None
-        end
-    | _, _ => Some s
-    end.
-
-(** [((ek, ev) for kk, vv in pairs)] *)
-Definition pairs_conv2 {A B : Type} (f : A -> A -> option (B * B)) :=
-  fix go (kvs : list (A * A)) : option (list (B * B)) :=
-    match kvs with
-    | [] => Some []
-    | (k, v) :: r =>
-        match f k v, go r with
-        | Some p, Some r' => Some (p :: r')
-        | _, _ => None
-        end
+    | v :: vs', f :: fs' => obind (body s f v) (go fs' vs')
+    | _, _ => Ok s
     end.
 
 (** Signatures of the (open-recursive) callees. *)
-Definition T_asdict := val -> bool -> option filter_fn -> pycls -> bool -> option ser_fn -> option val.
-Definition T_anything := val -> bool -> option filter_fn -> pycls -> bool -> option ser_fn -> option val.
-Definition T_rebuild := pycls -> list val -> option val.
-Definition T_astuple := val -> bool -> option filter_fn -> pycls -> bool -> option val.
+Definition T_asdict := val -> bool -> option filter_fn -> pycls -> bool -> option ser_fn -> res val.
+Definition T_anything := val -> bool -> option filter_fn -> pycls -> bool -> option ser_fn -> res val.
+Definition T_rebuild := pycls -> iter -> res val.
+Definition T_astuple := val -> bool -> option filter_fn -> pycls -> bool -> res val.
